@@ -56,7 +56,8 @@ def filter_empty(args: dict, meta: dict, info: dict):
         if val == "":
             if key in meta:
                 del meta[key]
-            elif key in info:
+            elif key in info and key not in ("announce", "url-list",
+                                             "httpseeds"):
                 del info[key]
             del args[key]
             logger.debug("removeing empty fields %s", val)
